@@ -540,7 +540,7 @@ func (f *frame) loopSpec(h *ssa.BasicBlock) *LoopSpec {
 
 func (f *frame) loopEnv(h *ssa.BasicBlock, st *State, override map[*ssa.Phi]Val) *Env {
 	c := f.c
-	return &Env{c: c, vars: f.ghostVars(), cur: st, old: c.entry, pkg: f.fn.Pkg.Pkg, guard: st.reach,
+	return &Env{c: c, vars: f.ghostVars(), cur: st, old: c.entry, pkg: pkgOf(f.fn), guard: st.reach,
 		lookup: func(name string) (Val, bool) {
 			return f.withState(st, func() (Val, bool) { return f.lookupVar(name, h, override) })
 		}}
